@@ -252,6 +252,162 @@ theorem feed_all_rejected (hs : Hashing) (cont : Bool) (rs : List Resp) : ∀ (q
     simp only [reduceCtorEq, false_and, ↓reduceIte]
     exact ih qs (fun q r hr h1 h2 => h q r (List.mem_cons_of_mem _ hr) h1 h2)
 
+/-! ### duplicates and completion -/
+
+theorem lookup_eraseKey_none {l : List (Nat × Nat)} {k : Nat} (k' : Nat) (h : lookup l k = none) :
+    lookup (eraseKey l k') k = none := by
+  unfold lookup at h ⊢
+  cases hf : (eraseKey l k').find? (·.1 == k) with
+  | none => rfl
+  | some p =>
+    exfalso
+    have hm := (mem_eraseKey (List.mem_of_find?_eq_some hf)).1
+    have hk := List.find?_some hf
+    have : l.find? (·.1 == k) = none := by
+      cases hl : l.find? (·.1 == k) with
+      | none => rfl
+      | some q => simp [hl] at h
+    exact (List.find?_eq_none.mp this p hm) hk
+
+theorem handle_index_sub (hs : Hashing) (qs : Query × Store) (r : Resp) :
+    ∀ p ∈ (handle hs qs r).1.1.index, p ∈ qs.1.index := by
+  intro p hp
+  cases hv : verify hs qs.1 r with
+  | none => rw [handle_reject hs qs r hv] at hp; exact hp
+  | some i =>
+    rw [handle_accept hs qs r i hv] at hp
+    exact (mem_eraseKey hp).1
+
+theorem handle_lookup_none (hs : Hashing) (qs : Query × Store) (r : Resp) (k : Nat)
+    (h : lookup qs.1.index k = none) : lookup (handle hs qs r).1.1.index k = none := by
+  cases hv : verify hs qs.1 r with
+  | none => rw [handle_reject hs qs r hv]; exact h
+  | some i => rw [handle_accept hs qs r i hv]; exact lookup_eraseKey_none _ h
+
+theorem feed_lookup_none (hs : Hashing) (cont : Bool) (rs : List Resp) (k : Nat) : ∀ (qs : Query × Store),
+    lookup qs.1.index k = none → lookup (feed hs cont qs rs).1.1.index k = none := by
+  induction rs with
+  | nil => intro qs h; exact h
+  | cons a rs ih =>
+    intro qs h
+    simp only [feed]
+    split
+    · exact handle_lookup_none hs qs a k h
+    · exact ih _ (handle_lookup_none hs qs a k h)
+
+/-- once a response for a block made progress the block is not awaited any more -/
+theorem handle_accepted_not_awaited (hs : Hashing) (qs : Query × Store) (r : Resp)
+    (h : (handle hs qs r).2 ≠ .none) : lookup (handle hs qs r).1.1.index r.blk = none := by
+  have hv := (handle_progress_iff hs qs r).mp h
+  cases hv' : verify hs qs.1 r with
+  | none => simp [hv'] at hv
+  | some i => rw [handle_accept hs qs r i hv']; exact lookup_eraseKey_self _ _
+
+/-- every awaited block is still awaited afterwards or was answered by a response
+of the stream that passed the tests at that moment (a well-formed cfilter message) -/
+theorem feed_received (hs : Hashing) (cont : Bool) (rs : List Resp) : ∀ (qs : Query × Store),
+    ∀ p ∈ qs.1.index, p ∈ (feed hs cont qs rs).1.1.index ∨
+      ∃ r ∈ rs, r.blk = p.1 ∧ r.isCFilter = true ∧ r.ftypeOk = true ∧ r.decodes = true := by
+  induction rs with
+  | nil => intro qs p hp; exact Or.inl hp
+  | cons a rs ih =>
+    intro qs p hp
+    have hstep : p ∈ (handle hs qs a).1.1.index ∨
+        (a.blk = p.1 ∧ a.isCFilter = true ∧ a.ftypeOk = true ∧ a.decodes = true) := by
+      cases hv : verify hs qs.1 a with
+      | none => rw [handle_reject hs qs a hv]; exact Or.inl hp
+      | some i =>
+        rw [handle_accept hs qs a i hv]
+        obtain ⟨h1, h2, h3, _, _⟩ := verify_some hv
+        by_cases hk : p.1 = a.blk
+        · exact Or.inr ⟨hk.symm, h1, h2, h3⟩
+        · left
+          simp only [accept, eraseKey, List.mem_filter]
+          exact ⟨hp, by simp [hk]⟩
+    simp only [feed]
+    split
+    · rcases hstep with h1 | h1
+      · exact Or.inl h1
+      · exact Or.inr ⟨a, by simp, h1⟩
+    · rcases hstep with h1 | h1
+      · rcases ih _ p h1 with h2 | ⟨r, hr, h2⟩
+        · exact Or.inl h2
+        · exact Or.inr ⟨r, List.mem_cons_of_mem _ hr, h2⟩
+      · exact Or.inr ⟨a, by simp, h1⟩
+
+theorem handle_finished_index (hs : Hashing) (qs : Query × Store) (r : Resp)
+    (h : (handle hs qs r).2 = .finished) : (handle hs qs r).1.1.index = [] := by
+  cases hv : verify hs qs.1 r with
+  | none => rw [handle_reject hs qs r hv] at h; cases h
+  | some i =>
+    rw [handle_accept hs qs r i hv] at h ⊢
+    simp only [accept] at h ⊢
+    split at h
+    · rename_i he; simpa using he
+    · cases h
+
+theorem feed_index_nil (hs : Hashing) (cont : Bool) (rs : List Resp) : ∀ (qs : Query × Store),
+    qs.1.index = [] → (feed hs cont qs rs).1.1.index = [] := by
+  intro qs h
+  cases hi : (feed hs cont qs rs).1.1.index with
+  | nil => rfl
+  | cons p ps =>
+    exfalso
+    have hl : lookup (feed hs cont qs rs).1.1.index p.1 = none :=
+      feed_lookup_none hs cont rs p.1 qs (by rw [h]; rfl)
+    rw [hi] at hl
+    simp [lookup] at hl
+
+/-- `Finished` anywhere in the handler's answers means nothing is awaited at the end -/
+theorem feed_finished_index (hs : Hashing) (cont : Bool) (rs : List Resp) : ∀ (qs : Query × Store),
+    Progress.finished ∈ (feed hs cont qs rs).2 → (feed hs cont qs rs).1.1.index = [] := by
+  induction rs with
+  | nil => intro qs h; simp [feed] at h
+  | cons a rs ih =>
+    intro qs h
+    simp only [feed] at h ⊢
+    split
+    · rename_i hc; exact handle_finished_index hs qs a hc.1
+    · rename_i hc
+      simp only [hc, ↓reduceIte, List.mem_cons] at h
+      rcases h with h | h
+      · exact feed_index_nil hs cont rs _ (handle_finished_index hs qs a h.symm)
+      · exact ih _ h
+
+theorem mkIndex_covers (start n k : Nat) (hk : k < n) : (start + k, k + 1) ∈ mkIndex start n := by
+  induction n with
+  | zero => omega
+  | succ n ih =>
+    simp only [mkIndex, List.mem_append, List.mem_singleton]
+    by_cases h : k < n
+    · exact Or.inl (ih h)
+    · have : k = n := by omega
+      subst this; exact Or.inr rfl
+
+/-- the prepared index awaits every block of the prepared range -/
+theorem prepare_covers (c : Chain) (t : Nat) (bt : Batch) (mb : Int) (q : Query)
+    (h : prepare c t bt mb = .ok q) (b : Nat) (h1 : q.start ≤ (b : Int)) (h2 : (b : Int) ≤ q.stop) :
+    ∃ i, (b, i) ∈ q.index := by
+  unfold prepare at h
+  split at h
+  · cases h
+  · split at h
+    · cases h
+    · simp only at h
+      split at h
+      · cases h
+      · simp only [Except.ok.injEq] at h
+        subst h
+        simp only at h1 h2 ⊢
+        have hbest : (0 : Int) ≤ (c.best : Int) := Int.natCast_nonneg _
+        obtain ⟨hs1, _⟩ := rangeOf_bounds (t : Int) (c.best : Int) bt mb hbest
+        generalize rangeOf (t : Int) (c.best : Int) bt mb = r at *
+        have hk : b - r.1.toNat < (r.2 - r.1 + 1).toNat := by omega
+        have := mkIndex_covers r.1.toNat (r.2 - r.1 + 1).toNat (b - r.1.toNat) hk
+        have hb : r.1.toNat + (b - r.1.toNat) = b := by omega
+        rw [hb] at this
+        exact ⟨_, this⟩
+
 /-! ### GetCFilter by cases -/
 
 /-- the branch after both lookups missed -/
